@@ -9,7 +9,8 @@ pub struct IndexMap<K, V, S> { _p: core::marker::PhantomData<(K, V, S)> }
 #[verifier::reject_recursive_types(K)]
 #[verifier::reject_recursive_types(V)]
 #[verifier::reject_recursive_types(S)]
-pub struct HashMap<K, V, S> { _p: core::marker::PhantomData<(K, V, S)> }
+pub struct HashMap<K, V, S = RandomState> { _p: core::marker::PhantomData<(K, V, S)> }
+pub struct RandomState;
 impl<K, V, S> IndexMap<K, V, S> {
     pub uninterp spec fn entries(&self) -> Seq<(K, V)>;
     #[verifier::external_body]
